@@ -379,3 +379,20 @@ class Check(PropertyCheck):
             while not done:
                 op = env.dispatcher.available_operations()[0]
                 _, _, done, _, _ = env.step((op.job_id, op.machines[0]))
+        # a graph assembled by hand in an unusual but legal order: other nodes first, the operation nodes afterwards
+        from job_shop_lib import graphs as G
+        g = G.JobShopGraph(I, add_operation_nodes=False)
+        G.add_source_sink_nodes(g)
+        G.add_machine_nodes(g)
+        g.add_operation_nodes()
+        try:
+            G.add_operation_machine_edges(g)
+        except Exception:  # pylint: disable=broad-except
+            pass        # (node ids and operation ids differ in such a graph: helpers that assume otherwise are not our concern here)
+        # instance transformations return NEW instances
+        impl.cmd_xform([])
+        # look-aheads on deep copies
+        import copy
+        d2 = jsl.Dispatcher(I)
+        twin = copy.deepcopy(d2)
+        twin.dispatch(twin.instance.jobs[0][0], twin.instance.jobs[0][0].machines[0])
